@@ -2,7 +2,8 @@
 
 
 def install_all(it):
-    from . import bytesm, btree, timekad, maddr, env, seq, core, cidm, strm
+    from . import bytesm, btree, timekad, maddr, env, seq, core, cidm, strm, cryptom
+    cryptom.install(it)
     strm.install(it)
     cidm.install(it)
     bytesm.install(it)
